@@ -158,6 +158,106 @@ theorem C16_mbox_trailing_newline_counterexample :
   simp only [WellFormed, and_true]
   exact ⟨by decide, by decide, by simp⟩
 
+/-! ## mbox reader: the loop of `read_mbox_format_mail` yields once per split message, whatever came before
+
+The control skeleton of the loop is read from the current source (`S2T.Gen.Mail.readerLoops`: one token per
+statement of the loop body).  `runLoop` is the loop over ANY list of items with ANY behaviour `o` of the
+conditional statements (what a `cond` statement yields may depend on the item — and `o` is arbitrary, so on
+anything: headers, earlier items, a set of ids seen so far).  A loop body that passes `loopOnce` has no such
+statement, and then the outcome is the input list itself: nothing is skipped, repeated, reordered or cut off. -/
+
+/-- what one pass of the loop body yields for the item `x` -/
+def runBody {α : Type} (o : α → List α) (body : List String) (x : α) : List α :=
+  body.flatMap (fun t => if t = "yield" then [x] else if t = "plain" then [] else o x)
+
+/-- the items the loop yields over `xs` -/
+def runLoop {α : Type} (o : α → List α) (body : List String) (xs : List α) : List α :=
+  xs.flatMap (runBody o body)
+
+/-- every statement is an unconditional top-level `yield` or contains no yield/continue/break/return, and
+    there is exactly one `yield` -/
+def loopOnce (body : List String) : Bool :=
+  body.all (fun t => t = "yield" || t = "plain") && body.count "yield" == 1
+
+theorem runBody_replicate {α : Type} (o : α → List α) (body : List String) (x : α)
+    (h : body.all (fun t => t = "yield" || t = "plain") = true) :
+    runBody o body x = List.replicate (body.count "yield") x := by
+  induction body with
+  | nil => simp [runBody]
+  | cons t r ih =>
+    simp only [List.all_cons, Bool.and_eq_true, Bool.or_eq_true, decide_eq_true_eq] at h
+    have ih' := ih h.2
+    unfold runBody at ih' ⊢
+    rw [List.flatMap_cons, ih']
+    rcases h.1 with ht | ht
+    · subst ht; simp [List.replicate_succ']
+      rw [← List.replicate_succ, List.replicate_succ']
+    · subst ht; simp
+
+/-- **C16 (mbox reader, one result per message in order — for every history).** A loop whose body passes
+    `loopOnce` yields exactly its items, in order, for every behaviour `o` of conditional statements. -/
+theorem C16_reader_loop_exact {α : Type} (o : α → List α) (body : List String) (h : loopOnce body = true)
+    (xs : List α) : runLoop o body xs = xs := by
+  unfold loopOnce at h
+  simp only [Bool.and_eq_true, beq_iff_eq] at h
+  unfold runLoop
+  have : runBody o body = fun x => [x] := by
+    funext x
+    rw [runBody_replicate o body x h.1, h.2]; rfl
+  rw [this]
+  induction xs with
+  | nil => rfl
+  | cons a r ih => simp
+
+/-- the hypothesis `loopOnce` is needed: with the skeleton `[plain, cond, yield]` (a conditional statement that
+    itself yields for some items) the outcome is not the input list -/
+theorem C16_reader_loop_cond_counterexample :
+    runLoop (fun (x : Nat) => if x = 7 then [x] else []) ["plain", "cond", "yield"] [1, 7] ≠ [1, 7] := by decide
+
+/-- tie: `read_mbox_format_mail` has exactly one loop, its body passes `loopOnce`, there is no comprehension
+    (no filter) and no yield outside the loop -/
+theorem gen_reader_loop :
+    S2T.Gen.Mail.readerLoops.length = 1 ∧ S2T.Gen.Mail.readerLoops.all loopOnce = true ∧
+    S2T.Gen.Mail.readerComprehensions = 0 ∧ S2T.Gen.Mail.readerYieldsOutsideLoop = 0 := by decide
+
+/-- tie: the loop runs over `_split_mbox_messages(file_like.read())`, each item goes through
+    `email.message_from_bytes` and `parse_email_message`, and that value is what is yielded; none of these names is
+    ever bound to anything else (no slice, sort, filter, dict of ids, …), changed in place or deleted -/
+theorem gen_reader_chain :
+    S2T.Gen.Mail.readerChain =
+      [("for-target", "msg_bytes"), ("for-iter", "message_bytes_list"), ("yield", "m"),
+       ("data", "file_like.read()"), ("message_bytes_list", "_split_mbox_messages(data)"),
+       ("message", "email.message_from_bytes(msg_bytes)"), ("m", "parse_email_message(message)")] := by decide
+
+/-- tie: `read_eml_format_mail` has no loop and no comprehension and yields one value -/
+theorem gen_eml_reader :
+    S2T.Gen.Mail.emlReaderLoops = [] ∧ S2T.Gen.Mail.emlReaderComprehensions = 0 ∧
+    S2T.Gen.Mail.emlReaderYields.length = 1 := by decide
+
+/-- tie: neither extractor module keeps mutable module-level containers, `global`/`nonlocal` names or cached
+    functions — a result cannot depend on what was extracted before -/
+theorem gen_no_module_state : S2T.Gen.Mail.moduleState = [] := by decide
+
+/-- **C16 (mbox, end to end count and order).** Under the hypotheses of `C16_mbox_count`, the reader loop of the
+    current source (any per-message function `f` standing for parse) run over the split of the mailbox gives one
+    result per message, the i-th being `f` of the i-th message (CR/LF-right-stripped). -/
+theorem C16_mbox_reader_count {β : Type} (f : Bytes → β) (o : β → List β)
+    (pre : Bytes) (ps : List (Bytes × Bytes))
+    (hpre : NonSep pre) (hterm : ps ≠ [] → Term pre) (h : WellFormed ps)
+    (hv : ∀ p ∈ ps, Visible p.2) (body : List String) (hb : body ∈ S2T.Gen.Mail.readerLoops) :
+    let res := runLoop o body ((splitMbox (pre ++ mboxJoin ps)).map f)
+    res.length = ps.length ∧ ∀ i (hi : i < ps.length), res[i]? = some (f (rstripCRLF ps[i].2)) := by
+  have hok : loopOnce body = true := by
+    have := gen_reader_loop.2.1
+    exact List.all_eq_true.mp this body hb
+  intro res
+  have hres : res = (splitMbox (pre ++ mboxJoin ps)).map f := C16_reader_loop_exact o body hok _
+  obtain ⟨hl, hi⟩ := C16_mbox_count pre ps hpre hterm h hv
+  rw [hres]
+  refine ⟨by simp [hl], ?_⟩
+  intro i hlt
+  rw [List.getElem?_map, hi i hlt]; rfl
+
 /-- **C16 (CRLF).** A separator line is recognised the same with LF and with CRLF. -/
 theorem C16_sep_crlf (s : Bytes) (h13 : s.getLast? ≠ some 13) :
     isSepLine (s ++ [13, 10]) = isSepLine (s ++ [10]) := by
